@@ -791,6 +791,110 @@ def _subst(tree, name, repl):
     return T().visit(tree)
 
 
+# ---------------------------------------------------------------------------
+# R-BP-6  an ordering owns its state
+# ---------------------------------------------------------------------------
+
+def rule_bp6(prog):
+    """`OBDD(str(o))` reads the header `lambda v1,..,vn:` that __str__ takes
+    from o.ordering.get_list().  The ordering an OBDD was built with must not
+    change afterwards: an ordering object keeps no reference to the list it
+    was made from, and does not hand out a list it keeps."""
+    from .c13 import _aliases
+    from ..galg import deep_snapshot
+    r = RuleResult('R-BP-6', 'an ordering keeps no reference to the list it '
+                   'was built from and hands out no list it keeps')
+    base = prog.cls('BDD.ordering.Ordering')
+    # Ordering(<list>) is what the OBDD constructor and the lambda reader
+    # call: the classes it instantiates are the ones analysed
+    for _once in (0,):
+        L = Sym('L', ('b', 'list', ('b', 'str')))
+        I = Interp(prog, Hooks(), rule='R-BP-6')
+        path = I.new_path()
+        anchor = prog.method(base, '__new__') or prog.method(base, '__init__')
+        if anchor is None:
+            raise Inconclusive('R-BP-6', 'Ordering has no constructor', '')
+        res = I.construct(base, [L], [], path, anchor.node)
+        res = [(p, v) for (p, v) in res if not isinstance(v, Raise)
+               and not (isinstance(v, Const) and v.v is None)]
+        if not res:
+            raise Inconclusive('R-BP-6', 'Ordering(list) constructs nothing',
+                               anchor.where())
+        for (p, o) in res:
+            ci = I.class_of(o, p) if isinstance(o, Obj) else None
+            if not isinstance(ci, ClassInfo):
+                raise Inconclusive('R-BP-6', 'Ordering(list) constructs %r' %
+                                   (o,), anchor.where())
+            init = prog.method(ci, '__init__') or anchor
+            snap = deep_snapshot(I, o, p)
+            al = _aliases(I, snap, p, (L,))
+            held = [x for x in al]
+            if held:
+                # a reference that no method ever reads changes nothing
+                hf = [fn for fn, fv in (p.heap[o.oid].fields or {}).items()
+                      if any(fv == x for x in held)]
+                if hf and len(hf) == len(held):
+                    read = any(
+                        isinstance(n, ast.Attribute) and n.attr in hf and
+                        isinstance(n.ctx, ast.Load)
+                        for c in ci.mro if isinstance(c, ClassInfo)
+                        for node in c.attrs.values()
+                        if isinstance(node, ast.FunctionDef)
+                        for n in ast.walk(node))
+                    if not read:
+                        r.notes.append('%s stores its argument in %s, which '
+                                       'is never read' % (ci.qn, hf))
+                        held = []
+            r.inst(cls=ci.qn, constructed=repr(snap)[:200],
+                   keeps_argument=[repr(x) for x in held])
+            if held:
+                r.fail(Finding(
+                    PROP, 'R-BP-6', init.where(), init.short(),
+                    'keeps-argument:%s' % ci.name,
+                    '%s keeps a reference to the list it is given (%r): '
+                    'when the caller edits that list afterwards, the '
+                    'ordering printed by str(o) is no longer the one the '
+                    'diagram was built with and OBDD(str(o)) != o' % (
+                        init.short(), held[0])))
+            else:
+                r.ok()
+            # what the instance holds (mutable containers of its own)
+            own = {}
+            h = p.heap[o.oid]
+            for fname, fv in (h.fields or {}).items():
+                if isinstance(fv, Obj) and p.heap[fv.oid].kind in (
+                        'list', 'dict', 'set'):
+                    own[fv.oid] = fname
+            for mname, node in sorted(ci.attrs.items()):
+                if not isinstance(node, ast.FunctionDef) or \
+                        mname.startswith('__') or \
+                        len(node.args.args) != 1:
+                    continue
+                m = prog.method(ci, mname, own=True)
+                outs = I.call_function(FRef(m), [o], [], p.fork(), m.node)
+                for (q, v) in outs:
+                    if isinstance(v, Raise):
+                        continue
+                    shared = None
+                    if isinstance(v, Obj) and v.oid in own:
+                        shared = 'its field `%s`' % own[v.oid]
+                    elif v == L:
+                        shared = 'the list it was built from'
+                    r.inst(cls=ci.qn, method=mname, returns=repr(
+                        deep_snapshot(I, v, q))[:120], shares=shared)
+                    if shared:
+                        r.fail(Finding(
+                            PROP, 'R-BP-6', m.where(), m.short(),
+                            'hands-out:%s' % mname,
+                            '%s returns %s, not a copy: a client that edits '
+                            'the returned list changes the ordering of '
+                            'every OBDD that uses this object, and str(o) '
+                            'no longer reads back as o' % (m.short(),
+                                                           shared)))
+                    else:
+                        r.ok()
+    return r
+
 
 def _documented_node_fields(prog, rule):
     """the rules below address the fields of a node by the names the
@@ -816,6 +920,7 @@ def run(prog, tier, seed):
     r3 = T(rule_bp3, prog, funcs, seeds)
     r4 = T(rule_bp4, prog)
     r5 = T(rule_bp5, prog, funcs, seeds)
+    r6 = T(rule_bp6, prog)
     expl = ('The expression parser of the OBDD module is interpreted '
             'abstractly per function: every path returns an OBDD-valued '
             'expression or raises SyntaxError (no fall-through None); the '
@@ -831,4 +936,11 @@ def run(prog, tier, seed):
     assumptions = ['ast field types: Name.id and arg.arg are str; id() is '
                    'int', 'Python\'s ast.parse is the parser the library '
                    'itself uses']
-    return T.results(r1, r2, r2b, r3, r4, r5), expl, assumptions, T.extra()
+    # both notations are built with &, |, ~ under the ordering object: its
+    # in_order / == / membership must be those of the sequence
+    from . import c17
+    from ..report import adopt
+    dep = adopt(T.results(T(c17.rule_bdd5, prog)), PROP,
+                'the ordering both notations are built under')
+    return T.results(r1, r2, r2b, r3, r4, r5, r6) + dep, expl, \
+        assumptions, T.extra()
